@@ -176,7 +176,7 @@ class TimestampType(AtomicType):
         return True
 
     def toInternal(self, obj):
-        if obj.tzinfo is not None:
+        if obj is not None and obj.tzinfo is not None:
             return obj.astimezone()
         return obj
 
